@@ -166,8 +166,15 @@ shape("FlowModelAbs", {"ghost_loaded": "Int"}, methods={
         "load_state_dict: raises if the file is absent or torn, otherwise "
         "installs the saved weights",
         modifies=["self.ghost_loaded"],
+        # a torn file fails in one of three ways depending on how much of
+        # it was written (0 bytes / 1-3 bytes / more), see nplib
         raises={"FileNotFoundError": "fs_absent(weights_file)",
-                "RuntimeError": "fs_torn(weights_file)"},
+                "EOFError": "fs_torn(weights_file) and "
+                "fs_torn_kind(weights_file) == 0",
+                "UnpicklingError": "fs_torn(weights_file) and "
+                "fs_torn_kind(weights_file) == 1",
+                "RuntimeError": "fs_torn(weights_file) and "
+                "fs_torn_kind(weights_file) == 2"},
         ensures=["self.ghost_loaded == fs_version(weights_file)"]),
 })
 shape("FlowProposalIO", {
